@@ -38,6 +38,7 @@ RULE += (' Also: a cache stacked on a cache against two functools layers (clears
 RULE += (' Also: a keyword of one call as positional (name, value) tuple of another; keyword order permutations.')
 RULE += (' Also: cached functions failing with BaseExceptions that are no Exceptions (aborts, CancelledError): a counted miss that caches nothing.')
 RULE += (' Also: the caller modifies what cache_parameters() handed out; the cache keeps the parameters it was created with.')
+RULE += (" Also: instances that are copies of an instance whose cached method was already looked up; subclasses overriding a cached method with another cached method that awaits super()'s.")
 ASSUMPTIONS = ["functools.lru_cache (C implementation of the running 3.12 interpreter) is the reference",
                "cache_discard has no stdlib twin: reference is the cross-validated model"]
 EXHAUSTIVE_SUBSPACES = 'all histories of length <= 4 (thorough: 5) over 7 operations for maxsize 1 and 2'
@@ -156,11 +157,16 @@ def cases(tier, seed, shard, nshards):
             else:
                 ops.append(["params"])
         kind = rng.choice(["function", "function", "method", "classmethod", "staticmethod"])
+        variant = None
         if kind == "method":
             ops = [op + [rng.randrange(2)] if op[0] in ("call", "fail", "discard") else op for op in ops]
+            if rng.random() < 0.4:
+                # (no discards in these: functools, which has none, is their reference)
+                variant = rng.choice(["copied", "override"])
+                ops = [op for op in ops if op[0] != "discard"]
         yield {"maxsize": rng.choice([None, -1, 0, 1, 1, 2, 2, 3, 4, 5, "default"]), "typed": rng.random() < 0.4,
                "form": rng.choice(["paren", "paren", "bare", "empty"]), "kind": kind, "ops": ops,
-               "exc": rng.choice(PLANNED_NAMES)}
+               "exc": rng.choice(PLANNED_NAMES), "variant": variant}
 
 
 class LRUModel:
@@ -287,6 +293,62 @@ def build(case):
                 "s": (lambda inst, a, k: cs(*a, **k), cs.cache_info, cs.cache_clear, None, cs.cache_parameters),
                 "m": (lambda inst, a, k: model(*a, **k), model.cache_info, model.cache_clear,
                       lambda inst, a, k: model.cache_discard(*a, **k), None),
+                "backends": (ba, bs, bm)}
+    if kind == "method" and case.get("variant") in ("copied", "override"):
+        # "copied": the second instance is a copy.copy() of the first, made after the first one's cached method had
+        # been looked up (whatever a look-up may have left in the instance travels with the copy) - it is an object of
+        # its own; "override": a subclass overrides the cached method with another cached method that awaits the
+        # inherited one through super() - two caches, one attribute name
+        import copy
+        variant = case["variant"]
+
+        def classes(deco, backend, is_async):
+            if is_async:
+                async def base_m(self, *args, **kwargs):
+                    return backend.body((self.tag,) + args, kwargs)
+            else:
+                def base_m(self, *args, **kwargs):
+                    return backend.body((self.tag,) + args, kwargs)
+            Base = type("Base", (), {"m": deco(base_m), "__init__": lambda self, tag: setattr(self, "tag", tag),
+                                     "__len__": lambda self: 0})
+            if variant != "override":
+                return Base, Base
+            if is_async:
+                async def child_m(self, *args, **kwargs):
+                    return ("child", await super(Child, self).m(*args, **kwargs))
+            else:
+                def child_m(self, *args, **kwargs):
+                    return ("child", super(Child, self).m(*args, **kwargs))
+            Child = type("Child", (Base,), {"m": deco(child_m)})
+            return Base, Child
+
+        def instances(K):
+            first = K(0)
+            first.m  # (looked up once before the copy is made)
+            if variant == "copied":
+                second = copy.copy(first)
+                second.tag = 1
+            else:
+                second = K(1)
+            return [first, second]
+
+        (BA, KA), (BS, KS), (BM, KM) = classes(deco_async, ba, True), classes(deco_sync, bs, False), classes(deco_sync, bm, False)
+        ia, is_, im = instances(KA), instances(KS), instances(KM)
+
+        def info_of(K, B):
+            return lambda: tuple(K.m.cache_info()) + (tuple(B.m.cache_info()) if B is not K else ())
+
+        def clear_of(K, B):
+            def clear():
+                K.m.cache_clear()
+                if B is not K:
+                    B.m.cache_clear()
+            return clear
+
+        return {"a": (lambda inst, a, k: ia[inst].m(*a, **k), info_of(KA, BA), clear_of(KA, BA), None,
+                      lambda: KA.m.cache_parameters()),
+                "s": (lambda inst, a, k: is_[inst].m(*a, **k), info_of(KS, BS), clear_of(KS, BS), None, KS.m.cache_parameters),
+                "m": (lambda inst, a, k: im[inst].m(*a, **k), info_of(KM, BM), clear_of(KM, BM), None, None),
                 "backends": (ba, bs, bm)}
     if kind == "method":
         async def am(self, *args, **kwargs):
